@@ -26,7 +26,7 @@ type c13 struct{}
 func init() { register(c13{}) }
 
 func (c13) ID() string              { return "C13" }
-func (c13) Cases(t fw.Tier) int     { return tierN(t, 48, 1200) }
+func (c13) Cases(t fw.Tier) int     { return tierN(t, 96, 2400) }
 func (c13) BatchSize(t fw.Tier) int { return 1 } // one fresh process per case: caches are filled under contention (cold start)
 func (c13) Race(t fw.Tier) bool     { return true }
 func (c13) Rule() string {
